@@ -45,7 +45,7 @@ BOXES_SEALED = BOXES + [((0.76, 0.76), (0.80, 1.0)), ((0.76, 0.76), (1.0, 0.80))
 BOXES_BLOCKS = [((0.3, 0.0), (0.45, 0.35)), ((0.45, 0.45), (0.7, 0.7))]
 ENVS = {"open": BOXES, "sealed": BOXES_SEALED, "blocks": BOXES_BLOCKS}
 ENV_OPTS = {"blocks": " res=%s obj=len" % F(0.01)}
-RETURN_LIMIT_S = 20      # harness watchdog: wall seconds without return after ptc fired / without any ptc evaluation
+RETURN_LIMIT_S = 15      # harness watchdog: wall seconds without return after ptc fired / without any ptc evaluation
 QA = ((0.1, 0.1), (0.9, 0.9))          # first query
 QB = ((0.13, 0.87), (0.91, 0.12))      # a different query (all four points distinctive)
 QSWAP = (QA[1], QA[0])
@@ -72,7 +72,7 @@ CLEARSOL_KS = [0, 1, 2, 5]
 SEALED_K = 250
 ROADMAP = {"PRM", "PRMstar", "LazyPRM", "LazyPRMstar", "SPARS", "SPARStwo"}   # override setProblemDefinition (clearQuery)
 
-NOSOL_STATUS = {"TIMEOUT", "INVALID_START", "INVALID_GOAL", "UNRECOGNIZED_GOAL_TYPE", "UNKNOWN", "CRASH", "ABORT"}
+NOSOL_STATUS = {"TIMEOUT", "INVALID_START", "INVALID_GOAL", "UNRECOGNIZED_GOAL_TYPE", "UNKNOWN", "CRASH", "ABORT", "INFEASIBLE"}
 
 
 def after_bound(planner):
@@ -281,6 +281,9 @@ def oracle(planner, ops, out, rc, err):
             fails.append((i, "status-approx", "APPROXIMATE_SOLUTION but the problem definition holds no solution"))
         if st == "INVALID_START" and valid_start:
             fails.append((i, "invalid-start", "INVALID_START although the problem definition holds a valid start state"))
+        if st == "INFEASIBLE" and d["exact"] == "1":
+            fails.append((i, "infeasible-with-solution", "INFEASIBLE (\"the planner decided that the problem is infeasible\") while the "
+                                                         "problem definition holds an exact solution"))
         if st in NOSOL_STATUS and added != 0:
             fails.append((i, "status-none", "%s although this call added %d solution(s)" % (st, added)))
         if st not in NOSOL_STATUS and st not in ("EXACT_SOLUTION", "APPROXIMATE_SOLUTION"):
@@ -905,11 +908,18 @@ def run(ck):
                 for hn in ("resume", "clear", "clear-plain"):
                     jobs.append((p, seeds[p], hn, k, K, hs[hn](k, K)))
                 rest = [n for n in names if n not in ("resume", "clear", "clear-plain", "solve")]
-                for hn in (rest[j % len(rest)], rest[(j + 3) % len(rest)], rest[(j + 6) % len(rest)]):
+                for hn in (rest[j % len(rest)], rest[(j + 5) % len(rest)]):
                     jobs.append((p, seeds[p], hn, k, K, hs[hn](k, K)))
         else:
-            for k in ks:
-                for hn in names:
+            # every k with the basic histories; the other histories rotate so that each of them sees every third k or so
+            base = ("resume", "clear", "clear-plain")
+            rest = [n for n in names if n not in base]
+            per_k = 7
+            for j, k in enumerate(ks):
+                for hn in base:
+                    jobs.append((p, seeds[p], hn, k, K, hs[hn](k, K)))
+                for i in range(per_k):
+                    hn = rest[(j * per_k + i) % len(rest)]
                     jobs.append((p, seeds[p], hn, k, K, hs[hn](k, K)))
 
     ck.log("%d runs over %d planners (%d workers)" % (len(jobs), len(PLANNERS), workers))
